@@ -564,6 +564,10 @@ def _cond(eqn, ins, ctx):
     it = idx[()]
     if it.sort == BOOL:
         it = tm.to_int(it)
+    if getattr(ctx, 'cond_hook', None) is not None:
+        k = ctx.cond_hook(it)
+        if k is not None:
+            return eval_jaxpr(branches[k].jaxpr, branches[k].consts, ops, ctx)
     results = []
     guards = []
     for k, br in enumerate(branches):
@@ -857,3 +861,192 @@ def _ctx_init(self):
 
 
 Ctx.__init__ = _ctx_init
+
+
+# ---------------------------------------------------------------------------
+# helper primitive: opaque isotropic tensor function of a symmetric 3x3 matrix (contract stub for
+# TensorMath.log_symm / log_sqrt_symm / pow_symm / exp_symm / sqrt_symm and jax.scipy.linalg.expm)
+# ---------------------------------------------------------------------------
+mfun_p = jcore.Primitive('vc_mfun')
+mfunjvp_p = jcore.Primitive('vc_mfun_jvp')
+
+
+def mfun(name, A, extra=()):
+    return mfun_p.bind(jnp.asarray(A, dtype=jnp.float64), name=name, extra=tuple(float(e) for e in extra))
+
+
+mfun_p.def_abstract_eval(lambda A, name, extra: jcore.ShapedArray(A.shape, jnp.float64))
+mfunjvp_p.def_abstract_eval(lambda A, tA, name, extra: jcore.ShapedArray(A.shape, jnp.float64))
+
+
+def _mfun_jvp(primals, tangents, *, name, extra):
+    (A,), (tA,) = primals, tangents
+    out = mfun_p.bind(A, name=name, extra=extra)
+    if type(tA) is ad.Zero:
+        return out, ad.Zero.from_value(out)
+    return out, mfunjvp_p.bind(A, tA, name=name, extra=extra)
+
+
+ad.primitive_jvps[mfun_p] = _mfun_jvp
+
+
+def _mfunjvp_transpose(ct, A, tA, *, name, extra):
+    # the Frechet derivative of a primary matrix function at a symmetric argument is self-adjoint
+    # w.r.t. the Frobenius inner product
+    assert ad.is_undefined_primal(tA) and not ad.is_undefined_primal(A)
+    if type(ct) is ad.Zero:
+        return None, ad.Zero(tA.aval)
+    return None, mfunjvp_p.bind(A, ct, name=name, extra=extra)
+
+
+ad.primitive_transposes[mfunjvp_p] = _mfunjvp_transpose
+
+
+def _mfunjvp_jvp(primals, tangents, *, name, extra):
+    A, tA = primals
+    dA, dtA = tangents
+    out = mfunjvp_p.bind(A, tA, name=name, extra=extra)
+    if type(dA) is not ad.Zero:
+        raise NotImplementedError('second derivative of an opaque tensor function with respect to its argument')
+    if type(dtA) is ad.Zero:
+        return out, ad.Zero.from_value(out)
+    return out, mfunjvp_p.bind(A, dtA, name=name, extra=extra)
+
+
+ad.primitive_jvps[mfunjvp_p] = _mfunjvp_jvp
+
+
+def _mfun_batch(args, dims, *, name, extra):
+    (A,), (d,) = args, dims
+    A = jnp.moveaxis(A, d, 0)
+    return jnp.stack([mfun_p.bind(A[i], name=name, extra=extra) for i in range(A.shape[0])]), 0
+
+
+def _mfunjvp_batch(args, dims, *, name, extra):
+    A, tA = args
+    dA, dT = dims
+    n = (A.shape[dA] if dA is not None else tA.shape[dT])
+    A = jnp.moveaxis(A, dA, 0) if dA is not None else jnp.broadcast_to(A, (n,) + A.shape)
+    tA = jnp.moveaxis(tA, dT, 0) if dT is not None else jnp.broadcast_to(tA, (n,) + tA.shape)
+    return jnp.stack([mfunjvp_p.bind(A[i], tA[i], name=name, extra=extra) for i in range(n)]), 0
+
+
+batching.primitive_batchers[mfun_p] = _mfun_batch
+batching.primitive_batchers[mfunjvp_p] = _mfunjvp_batch
+
+# ground rules at the identity / zero: value and Frechet derivative (validated natively in C12)
+_MFUN_AT_ID = {'log_symm': 0, 'log_sqrt_symm': 0, 'sqrt_symm': 1, 'pow_symm': 1, 'exp_symm': None, 'expm': None}
+_MFUN_DERIV_AT_ID = {'log_symm': 1.0, 'log_sqrt_symm': 0.5, 'sqrt_symm': 0.5}
+
+
+def _is_const_matrix(A, val):
+    try:
+        return all((A[i, j].op == 'const' and A[i, j].data == (val if i == j else 0)) for i in range(3) for j in range(3))
+    except AttributeError:
+        return False
+
+
+def _sym_args(A):
+    """the six independent entries of sym(A)"""
+    out = []
+    for i in range(3):
+        for j in range(i, 3):
+            out.append(A[i, j] if i == j else (A[i, j] if A[i, j] is A[j, i] else tm.div(tm.add(A[i, j], A[j, i]), tm.const(2))))
+    return out
+
+
+def _mfun_eval(eqn, ins, ctx):
+    name, extra = eqn.params['name'], eqn.params['extra']
+    A = to_obj(ins[0])
+    out = onp.empty((3, 3), dtype=object)
+    ident = lambda c: [[tm.const(c) if i == j else tm.ZERO for j in range(3)] for i in range(3)]
+    special = None
+    if _is_const_matrix(A, 1):
+        special = {'log_symm': 0, 'log_sqrt_symm': 0, 'sqrt_symm': 1, 'pow_symm': 1}.get(name)
+    elif _is_const_matrix(A, 0):
+        special = {'exp_symm': 1, 'expm': 1, 'pow_symm': 0 if (extra and extra[0] > 0) else None, 'sqrt_symm': 0}.get(name)
+    if special is not None:
+        v = ident(special)
+        for i in range(3):
+            for j in range(3):
+                out[i, j] = v[i][j]
+        return [out]
+    args = _sym_args(A) + [real_of_float(e) for e in extra]
+    for i in range(3):
+        for j in range(i, 3):
+            out[i, j] = out[j, i] = tm.app('%s_%d%d' % (name, i, j), args)
+    return [out]
+
+
+def _mfunjvp_eval(eqn, ins, ctx):
+    name, extra = eqn.params['name'], eqn.params['extra']
+    A, X = to_obj(ins[0]), to_obj(ins[1])
+    out = onp.empty((3, 3), dtype=object)
+    coef = None
+    if _is_const_matrix(A, 1):
+        coef = {'log_symm': 1.0, 'log_sqrt_symm': 0.5, 'sqrt_symm': 0.5, 'pow_symm': (extra[0] if extra else None)}.get(name)
+    elif _is_const_matrix(A, 0):
+        coef = {'exp_symm': 1.0, 'expm': 1.0}.get(name)
+    if coef is not None:
+        c = real_of_float(coef)
+        for i in range(3):
+            for j in range(3):
+                out[i, j] = tm.mul(c, tm.div(tm.add(X[i, j], X[j, i]), tm.const(2)))
+        return [out]
+    args = _sym_args(A) + _sym_args(X) + [real_of_float(e) for e in extra]
+    for i in range(3):
+        for j in range(i, 3):
+            out[i, j] = out[j, i] = tm.app('%s_jvp_%d%d' % (name, i, j), args)
+    return [out]
+
+
+_DEFAULT_HANDLERS['vc_mfun'] = _mfun_eval
+_DEFAULT_HANDLERS['vc_mfun_jvp'] = _mfunjvp_eval
+
+
+class tensor_stubs:
+    """context manager: replace the eigen-based tensor functions and the 3x3 inverse by contract stubs
+    while tracing (DESIGN §3.3/§4.2); the stubs' contracts are discharged in C12"""
+
+    def __enter__(self):
+        from optimism import TensorMath
+        import jax.scipy.linalg as jsl
+        self.saved = []
+
+        def patch(mod, attr, fn):
+            self.saved.append((mod, attr, getattr(mod, attr)))
+            setattr(mod, attr, fn)
+        patch(TensorMath, 'log_sqrt_symm', lambda C: mfun('log_sqrt_symm', C))
+        patch(TensorMath, 'log_symm', lambda C: mfun('log_symm', C))
+        patch(TensorMath, 'sqrt_symm', lambda C: mfun('sqrt_symm', C))
+        patch(TensorMath, 'exp_symm', lambda C: mfun('exp_symm', C))
+        patch(TensorMath, 'pow_symm', lambda C, m: mfun('pow_symm', C, (m,)))
+        patch(jsl, 'expm', lambda A, **k: mfun('expm', A))
+
+        def inv3(A):
+            A = jnp.asarray(A)
+            if A.shape != (3, 3):
+                return self._inv(A)
+            c = jnp.array([[A[1, 1] * A[2, 2] - A[1, 2] * A[2, 1], A[0, 2] * A[2, 1] - A[0, 1] * A[2, 2], A[0, 1] * A[1, 2] - A[0, 2] * A[1, 1]],
+                           [A[1, 2] * A[2, 0] - A[1, 0] * A[2, 2], A[0, 0] * A[2, 2] - A[0, 2] * A[2, 0], A[0, 2] * A[1, 0] - A[0, 0] * A[1, 2]],
+                           [A[1, 0] * A[2, 1] - A[1, 1] * A[2, 0], A[0, 1] * A[2, 0] - A[0, 0] * A[2, 1], A[0, 0] * A[1, 1] - A[0, 1] * A[1, 0]]])
+            det = A[0, 0] * c[0, 0] + A[0, 1] * c[1, 0] + A[0, 2] * c[2, 0]
+            return c / det
+        self._inv = jnp.linalg.inv
+        patch(jnp.linalg, 'inv', inv3)
+        self._det = jnp.linalg.det
+
+        def det3(A):
+            A = jnp.asarray(A)
+            if A.shape == (3, 3):
+                return (A[0, 0] * (A[1, 1] * A[2, 2] - A[1, 2] * A[2, 1]) - A[0, 1] * (A[1, 0] * A[2, 2] - A[1, 2] * A[2, 0])
+                        + A[0, 2] * (A[1, 0] * A[2, 1] - A[1, 1] * A[2, 0]))
+            if A.shape == (2, 2):
+                return A[0, 0] * A[1, 1] - A[0, 1] * A[1, 0]
+            return self._det(A)
+        patch(jnp.linalg, 'det', det3)
+        return self
+
+    def __exit__(self, *a):
+        for mod, attr, old in reversed(self.saved):
+            setattr(mod, attr, old)
